@@ -5,6 +5,7 @@ go 1.23
 toolchain go1.23.5
 
 require (
+	cosmossdk.io/core v0.11.0
 	cosmossdk.io/log v1.3.1
 	cosmossdk.io/math v1.2.0
 	cosmossdk.io/store v1.0.2
@@ -21,7 +22,6 @@ require (
 	cloud.google.com/go/storage v1.35.1 // indirect
 	cosmossdk.io/api v0.7.3 // indirect
 	cosmossdk.io/collections v0.4.0 // indirect
-	cosmossdk.io/core v0.11.0 // indirect
 	cosmossdk.io/depinject v1.0.0-alpha.4 // indirect
 	cosmossdk.io/errors v1.0.1 // indirect
 	cosmossdk.io/x/evidence v0.1.0 // indirect
